@@ -10,3 +10,9 @@ package example
 
 //@ flags init
 //@   property C02, C19
+
+// ---------------------------------------------------------------- C19: the generic chain for the two example value types
+// The contracts of the parser (C03), the code generator (C01) and the optimizer (C02) are written once on the generic
+// code; the obligations they generate for the instantiations with bool and float64 are the claim of C19, together with
+// the laws of the operators the two example configurations register as commutative (flags init above).
+//@ instantiation-property C19: C01, C02, C03 for bool, float64
